@@ -42,6 +42,12 @@ def sname(case, k):
 
 
 # ------------------------------------------------------------------ generation
+def _shaped(names, k):
+    """the same names as any kind of Iterable[str] the signature of `constraints` admits, one-shot ones included"""
+    return [names, tuple(names), set(names), frozenset(names), (n for n in names), iter(names),
+            map(str, names), dict.fromkeys(names).keys()][k % 8]
+
+
 def _entry(pid, name, before=(), after=(), required=False, ret=None, extras=False, plain=False):
     return {"pid": pid, "name": name, "before": sorted(before), "after": sorted(after),
             "required": required, "ret": ret, "extras": extras, "plain": plain}
@@ -62,6 +68,12 @@ def corpus():
            "config": [[3, 10], [2, 11], [1, 12], [0, 13]]}
     yield {"salt": "s", "entries": [E(0, 3, ret=2), E(1, 2, before=[3], ret=3), E(2, 1, before=[2], ret=4)],
            "config": [[3, 10], [1, 12]]}
+    # the same chains with the constraints given as one-shot iterables (generator / iterator / map)
+    for sh in (4 + 8 * 5, 5 + 8 * 6, 6 + 8 * 4):
+        yield {"salt": "s", "entries": [dict(E(0, 3, after=[2], ret=None), shape=sh), dict(E(1, 2, after=[1], ret=0), shape=sh), E(2, 1, ret=1)],
+               "config": [[3, 10], [2, 11], [1, 12]]}
+        yield {"salt": "s", "entries": [E(0, 3, ret=2), dict(E(1, 2, before=[3], ret=3), shape=sh), dict(E(2, 1, before=[2], ret=4), shape=sh)],
+               "config": [[3, 10], [2, 11], [1, 12]]}
     # constraints naming plugins that are not installed (both kinds), chain through an absent name
     yield {"salt": "s", "entries": [E(0, 1, before=[9], ret=5), E(1, 2, after=[9], ret=6)], "config": [[1, 10], [2, 11]]}
     yield {"salt": "s", "entries": [E(0, 1, before=[9]), E(1, 2, after=[8], before=[7])], "config": [[2, 11]]}
@@ -116,6 +128,8 @@ def gen_random(rng):
         r = rng.random()
         ret = None if r < 0.35 else (rng.randrange(FALSY) if r < 0.6 else rng.randint(FALSY, 9))
         entries.append(_entry(pid, x, before[x], after[x], required=rng.random() < 0.25, ret=ret))
+        if rng.random() < 0.5:
+            entries[-1]["shape"] = rng.randrange(64)
     for e in entries:
         if not e["before"] and not e["after"] and not e["required"] and rng.random() < 0.3:
             e["plain"] = True
@@ -236,8 +250,8 @@ def run_impl(case):
             return rv
         digest._pid = e["pid"]
         if not e["plain"]:
-            digest = constraints(before=[sname(case, b) for b in e["before"]],
-                                 after=[sname(case, a) for a in e["after"]],
+            digest = constraints(before=_shaped([sname(case, b) for b in e["before"]], e.get("shape", 0)),
+                                 after=_shaped([sname(case, a) for a in e["after"]], e.get("shape", 0) // 8),
                                  required=e["required"])(digest)
         return digest
 
